@@ -42,6 +42,16 @@ CHECKS = {
     "C08": ("runtime monitoring: differential oracle - sub-tree of every decoded node vs an independent scan_node of its value",
             "For decoded nodes of every result (<=20 per tree) the children are compared with a fresh, untapped scan of a node of "
             "the same type and value with the remaining depth. Exploration.", "2/C08"),
+    "C16": ("runtime monitoring: function contract on strip_carets (independent caret automaton, exhaustive small alphabet + every call of "
+            "every workload) and span/value recomputation monitors on the two shell decoders over constructed invocations",
+            "strip_carets equals the automaton on all ~10^6 strings of length <=7 over 7 symbols; cmd/powershell results are "
+            "re-derived from the text by the documented rules; encoded invocations have ground truth by construction. "
+            "Exploration; one known finding (pinned end offset).", "2/C16"),
+    "C17": ("runtime monitoring: reference-model oracle for keyword search, exhaustive over a small alphabet and length bound, sampled beyond, "
+            "also through registries built from generated keyword directories",
+            "find_keywords/find_all equal an independent left-to-right reference on all 1.4*10^7 (data<=6, keyword<=3) pairs over "
+            "6 symbols, on random keyword sets with arbitrary bytes and through get_keywords() on generated directories. "
+            "Exploration, exhaustive inside the stated scope.", "2/C17"),
 }
 
 TODO = {}
